@@ -41,11 +41,18 @@ fn run_cfg(acc: &mut Acc, cfg: &Cfg, ins: &[String], tables: &AtomTables, family
         }
     };
     let mut competed_any = false;
-    for input in ins {
+    // the repetition-shape and registration-order families are also scanned from every character
+    // boundary (find_iter(input).with_offset(o)): the rule is the same from any position
+    let with_starts = family == "repetition-shapes" || family == "registration-order";
+    for (input, start) in ins.iter().flat_map(|i| {
+        let n = if with_starts { i.chars().count() } else { 0 };
+        let bounds: Vec<Option<usize>> = std::iter::once(None).chain(i.char_indices().map(|(b, _)| Some(b)).skip(1).take(n)).collect();
+        bounds.into_iter().map(move |b| (i, b))
+    }) {
         acc.scans += 1;
         let table = ScanTable::new(&spec, input, tables);
         let mut st = ScanStats::default();
-        let d = lockstep(&sc, &spec, &table, input, None, 0, 2, &mut st);
+        let d = lockstep(&sc, &spec, &table, input, start, 0, 2, &mut st);
         if st.tokens > 0 && (st.competed > 0 || st.skipped > 0) {
             acc.nontrivial += 1;
         }
@@ -66,7 +73,7 @@ fn run_cfg(acc: &mut Acc, cfg: &Cfg, ins: &[String], tables: &AtomTables, family
                 _ => {}
             }
             // every disagreement of a lookahead-free single-mode scan is a C01 disagreement
-            acc.viol.add("", || Violation { key: String::new(), summary: format!("{} on {:?}: {}", cfg.show(), input, d.detail), replay: replay_json(cfg, input, None, 0, &d) });
+            acc.viol.add("", || Violation { key: String::new(), summary: format!("{} on {:?}{}: {}", cfg.show(), input, start.map(|o| format!(" from offset {o}")).unwrap_or_default(), d.detail), replay: replay_json(cfg, input, start, 0, &d) });
             break; // one witness per configuration is enough; simplest input first
         }
     }
@@ -145,7 +152,7 @@ pub fn run(tier: Tier) -> ! {
         if let Err(e) = bridge::tabulate_atoms(&all.atom_keys(), &mut tables2) {
             refsem::evidence::machinery(&format!("cannot tabulate atoms of the class menu: {e}"));
         }
-        let insc = inputs(&['a', 'b', '1', ' ', '→', '.'], 3);
+        let insc = inputs(&['a', 'b', '1', ' ', '→', '.', 'š', '\u{10061}'], 3);
         let pairs: Vec<(usize, usize)> = (0..menu.len()).flat_map(|x| (0..menu.len()).map(move |y| (x, y))).collect();
         let accs = par_for(pairs.len(), 4, || Acc { samples: Samples::new(1), ..Default::default() }, |acc, i| {
             let (x, y) = (menu[pairs[i].0], menu[pairs[i].1]);
